@@ -19,6 +19,9 @@ pub struct Adv {
     pub gated: bool,
     /// Leftover (zero-filled, right length) piece files of an interrupted earlier run.
     pub stale: Vec<usize>,
+    /// Every store attempted by the second connection fails: a directory sits where that connection
+    /// writes a piece aside (`<piece file>.<its address>.part`) before moving it into place.
+    pub blocked: bool,
 }
 
 #[derive(Default, Clone)]
@@ -55,7 +58,7 @@ impl Adv {
 impl Scenario for Adv {
     type Mon = Mon;
     fn name(&self) -> String {
-        format!("adversary-{}-dev{}-{}{}", self.adversaries, self.deviations, if self.gated { "gated" } else { "direct" }, if self.stale.is_empty() { String::new() } else { format!("-stale{:?}", self.stale) })
+        format!("adversary-{}-dev{}-{}{}", self.adversaries, self.deviations, if self.gated { "gated" } else { "direct" }, if self.stale.is_empty() { String::new() } else { format!("-stale{:?}", self.stale) }) + if self.blocked { "-store-of-conn1-fails" } else { "" }
     }
     fn cfg(&self) -> WorldCfg {
         let mut peers: Vec<_> = (0..self.adversaries).map(|k| peer_cfg(k, true)).collect();
@@ -68,6 +71,12 @@ impl Scenario for Adv {
     fn setup(&self, w: &mut World, mon: &mut Mon) {
         let t = w.t.clone();
         mon.p = vec![PeerMon::default(); self.adversaries + 1];
+        if self.blocked {
+            let addr: String = w.peers[1].cfg.addr.chars().map(|c| if c.is_ascii_alphanumeric() { c } else { '_' }).collect();
+            for i in 0..t.pieces.len() {
+                std::fs::create_dir_all(w.dir.join(format!("{}.{}.part", t.piece_file(i), addr))).expect("cannot block the part path");
+            }
+        }
         // the observer (incoming) joins at any point of the history: event "So"
         for k in 0..self.adversaries {
             let id = w.peers[k].cfg.id;
@@ -337,22 +346,25 @@ impl Scenario for Adv {
 pub fn scenarios(thorough: bool) -> Vec<(Adv, usize)> {
     if thorough {
         vec![
-            (Adv { adversaries: 1, deviations: 5, gated: false, stale: vec![] }, 14),
-            (Adv { adversaries: 2, deviations: 3, gated: false, stale: vec![] }, 10),
-            (Adv { adversaries: 1, deviations: 2, gated: true, stale: vec![] }, 10),
-            (Adv { adversaries: 2, deviations: 1, gated: true, stale: vec![] }, 9),
-            (Adv { adversaries: 1, deviations: 2, gated: false, stale: vec![0, 1] }, 10),
-            (Adv { adversaries: 2, deviations: 1, gated: false, stale: vec![1] }, 8),
+            (Adv { adversaries: 1, deviations: 5, gated: false, stale: vec![], blocked: false }, 14),
+            (Adv { adversaries: 2, deviations: 3, gated: false, stale: vec![], blocked: false }, 10),
+            (Adv { adversaries: 1, deviations: 2, gated: true, stale: vec![], blocked: false }, 10),
+            (Adv { adversaries: 2, deviations: 1, gated: true, stale: vec![], blocked: false }, 9),
+            (Adv { adversaries: 1, deviations: 2, gated: false, stale: vec![0, 1], blocked: false }, 10),
+            (Adv { adversaries: 2, deviations: 1, gated: false, stale: vec![1], blocked: false }, 8),
+            (Adv { adversaries: 2, deviations: 1, gated: true, stale: vec![], blocked: true }, 9),
         ]
     } else {
         vec![
-            (Adv { adversaries: 1, deviations: 3, gated: false, stale: vec![] }, 10),
-            (Adv { adversaries: 2, deviations: 2, gated: false, stale: vec![] }, 7),
+            (Adv { adversaries: 1, deviations: 3, gated: false, stale: vec![], blocked: false }, 10),
+            (Adv { adversaries: 2, deviations: 2, gated: false, stale: vec![], blocked: false }, 7),
             // held-back broadcasts: a second connection can finish (or spoil) a piece that the first
             // one has already stored, before its task learns about that
-            (Adv { adversaries: 2, deviations: 1, gated: true, stale: vec![] }, 7),
+            (Adv { adversaries: 2, deviations: 1, gated: true, stale: vec![], blocked: false }, 7),
             // leftovers of an interrupted earlier run lie in the download directory
-            (Adv { adversaries: 1, deviations: 1, gated: false, stale: vec![0, 1] }, 8),
+            (Adv { adversaries: 1, deviations: 1, gated: false, stale: vec![0, 1], blocked: false }, 8),
+            // a storage fault that hits one connection only, while the other one stores the same piece
+            (Adv { adversaries: 2, deviations: 0, gated: true, stale: vec![], blocked: true }, 8),
         ]
     }
 }
@@ -402,16 +414,39 @@ pub fn run(ctx: &Ctx) -> Outcome {
             other => ctx.machinery_error(format!("fsfault subprocess failed: {:?}", other.map(|o| (o.status, String::from_utf8_lossy(&o.stderr).chars().take(300).collect::<String>())))),
         }
     }
+    // a peer that dials in from the address of a connected peer (real accept path over loopback)
+    {
+        let dir = core::private_cwd("c01", "knownaddr");
+        match crate::c11::known_address_dial_in_case(&dir) {
+            Ok((n, None)) => per.push(json!({"scenario": "dial-in from the address of a connected peer", "frames_judged": n, "held": true})),
+            Ok((_, Some((class, why)))) => ctx.violation(class, why, json!({"scenario": "knownaddr", "history": []})),
+            Err(e) => ctx.machinery_error(format!("known-address dial-in run could not be carried out: {}", e)),
+        }
+    }
     let mut o = Outcome::new("model_checking");
     explore::stats_outcome(&total, &mut o);
     o.set("scenarios", Value::Array(per));
-    o.set("rule", json!("torrent: piece 0 = 16387 B (blocks 16384 + 3), piece 1 = 5 B; adversarial peer k (after handshake + full bitfield): N unchoke, Go/Gn correct answer to the oldest/newest outstanding request, Xo/Xn same coordinates with one payload bit flipped, Wi other piece index, Wb begin+1, Wl/WL one byte short/long, D duplicate of the last accepted block, U block at an offset never requested, C choke, Z close, R reset, L release of a held-back broadcast; observer (incoming): So joins at any point (handshake + empty bitfield + interested in one read; the bitfield it is sent is checked), then Q0/Q1 requests the first block of piece 0/1; -stale scenarios start with zero-filled files of the right length under the names of the listed pieces (they are not data the client stored; a piece counts as stored only when its file holds verified content); histories with at most `dev` non-honest events (N, G*, L are honest); every tie-break of the chooser enumerated. Plus two full-session scenarios borrowed from C02 (storage-*): a host re-listed by the tracker under a new peer id while its old connection is live, and two seeders with held-back broadcasts; there only 'Have implies a stored verified piece' and 'owned stays owned' are evaluated. Plus one honest download of two pieces of 2 MiB + 16 KiB + 5 bytes (larger than tokio's 2 MiB file-write chunk) with the same invariants after every event. Plus a storage fault: in a subprocess whose file size limit is 20 000 bytes (RLIMIT_FSIZE) an honest seeder delivers a 40 000-byte piece, so the write fails part-way; over 60 fair events nothing may be counted as stored that is not, and every *.piece file must hash to its name."));
+    o.set("rule", json!("torrent: piece 0 = 16387 B (blocks 16384 + 3), piece 1 = 5 B; adversarial peer k (after handshake + full bitfield): N unchoke, Go/Gn correct answer to the oldest/newest outstanding request, Xo/Xn same coordinates with one payload bit flipped, Wi other piece index, Wb begin+1, Wl/WL one byte short/long, D duplicate of the last accepted block, U block at an offset never requested, C choke, Z close, R reset, L release of a held-back broadcast; observer (incoming): So joins at any point (handshake + empty bitfield + interested in one read; the bitfield it is sent is checked), then Q0/Q1 requests the first block of piece 0/1; -stale scenarios start with zero-filled files of the right length under the names of the listed pieces (they are not data the client stored; a piece counts as stored only when its file holds verified content); the -store-of-conn1-fails scenario lets every store of the second connection fail (a directory sits at the path it writes a piece aside to) while the first connection may store the same piece; histories with at most `dev` non-honest events (N, G*, L are honest); every tie-break of the chooser enumerated. Plus two full-session scenarios borrowed from C02 (storage-*): a host re-listed by the tracker under a new peer id while its old connection is live, and two seeders with held-back broadcasts; there only 'Have implies a stored verified piece' and 'owned stays owned' are evaluated. Plus one honest download of two pieces of 2 MiB + 16 KiB + 5 bytes (larger than tokio's 2 MiB file-write chunk) with the same invariants after every event. Plus a storage fault: in a subprocess whose file size limit is 20 000 bytes (RLIMIT_FSIZE) an honest seeder delivers a 40 000-byte piece, so the write fails part-way; over 60 fair events nothing may be counted as stored that is not, and every *.piece file must hash to its name. Plus one real-socket run: the client holds an outgoing connection to X and is fetching a piece over it; a second peer dials in from X's ip:port (handshake under another id, bitfield without that piece, unchoke); X then delivers: every piece counted as owned must be stored and verified, every Have must name such a piece."));
     o.assume("payload bytes enter the state key only as per-block tags {empty, correct, corrupt}: no code path inspects payload other than through SHA-1 of the whole piece");
     o
 }
 
 pub fn replay(_ctx: &Ctx, r: &Value) -> i32 {
     let name = r["scenario"].as_str().unwrap();
+    if name == "knownaddr" {
+        let dir = core::private_cwd("c01", "replay");
+        return match crate::c11::known_address_dial_in_case(&dir) {
+            Ok((_, None)) => 0,
+            Ok((_, Some((class, why)))) => {
+                println!("VIOLATION property=C01 replay=<this file>\n  class={} {}", class, why);
+                1
+            }
+            Err(e) => {
+                eprintln!("could not be carried out: {}", e);
+                2
+            }
+        };
+    }
     if name == "fsfault" {
         let exe = std::env::current_exe().expect("current_exe");
         let out = std::process::Command::new(&exe).args(["--probe", "fsfault"]).stdout(std::process::Stdio::null()).output().expect("subprocess");
